@@ -59,7 +59,12 @@ Targets == Atoms0 \cup Depth1 \cup (IF TDepth >= 2 THEN Depth2 ELSE {})
 
 \* ---- patterns -----------------------------------------------------------------------
 Regexes == {PRegex(n, f) : n \in {"ra", "rb", "rs"}, f \in {"fullmatch", "match", "search"}}
-Preds == {PPred(n, 0) : n \in {"yes", "no", "truthy", "boom"}}
+\* callables: truthy / falsy results, and raising ValueError / AttributeError / ZeroDivisionError /
+\* TypeError / IndexError / KeyError depending on the target (1 / x > 0,  x[0] == 'a')
+Preds == {PPred(n, 0) : n \in {"yes", "no", "truthy", "boom", "boom_attr", "recip", "head"}}
+\* comparisons with a set operand: inclusion is a partial order (neither <= nor > may hold)
+FS == VC("frozenset", <<VInt(1), VStr("a")>>)
+SetCmps == {PM(c, FS) : c \in {"<", "<=", ">", ">=", "!="}} \cup {PMR(">", VC("frozenset", <<VInt(1)>>))}
 MExprs == {PM("==", VInt(1)), PM("!=", VStr("a")), PM(">", VInt(0)), PM("<=", VInt(1)), PM(">=", VStr("a")),
            PM("<", VStr("b")), PMTruthy}
 Lits == {PLit(VInt(1)), PLit(VStr("a")), PLit(VNone), PLit(VBool(TRUE))}
@@ -71,7 +76,7 @@ Reflected == {PMR("<", VInt(0)), PMR("==", VInt(1)), PMR(">=", VStr("a")), PMR("
 \* Match nested inside a Match pattern, with and without its own default
 NM0 == PMatch(PType("int"), TRUE, VInt(0))
 NM == {NM0, PMatch(PType("int"), FALSE, VNone), PMatch(PLit(VStr("a")), TRUE, VNone)}
-Leaves == Lits \cup Types \cup Regexes \cup RegexFlags \cup Preds \cup MExprs \cup Reflected \cup NM
+Leaves == Lits \cup Types \cup Regexes \cup RegexFlags \cup Preds \cup MExprs \cup SetCmps \cup Reflected \cup NM
 
 \* the small leaf alphabet used inside composite patterns
 LsSeq == IF Wide THEN <<PLit(VInt(1)), PLit(VStr("a")), PType("int"), PType("str"), PType("object"),
@@ -239,6 +244,8 @@ ErrClass == Case => /\ LawErrs(O)
                     /\ (pattern.op \in {"list", "set", "frozenset", "tuple", "dict"} /\ ~PyIsInstance(target, pattern.op)
                           => O.errs = {"TypeMatchError"})
                     /\ (pattern.op \in {"lit", "regex", "pred", "not", "mtruthy"} /\ ~O.ok /\ Clean(O) => O.errs = {"MatchError"})
+                    \* whatever a callable pattern raises is a rejection, never an error of its own
+                    /\ (pattern.op = "pred" /\ ~O.ok => O.errs = {"MatchError"})
                     \* a comparison Python refuses is not a rejection: the TypeError itself comes out
                     /\ (pattern.op = "m" /\ (IF pattern.refl THEN PyCmp(pattern.cmp, pattern.rhs, target)
                                               ELSE PyCmp(pattern.cmp, target, pattern.rhs)) = "E" => O.errs = {"TypeError"})
